@@ -195,6 +195,7 @@ def run(repo, res, tier):
     sortlen(repo, res)
     sk_bash.sub_rule(repo, res, tier)
     sk_bash.matchfn_rule(repo, res, tier)
+    sk_bash.candord_rule(repo, res, tier)  # command output inside a word: the same longest-first discipline as for literals
     siblings(repo, res)
     res.floor("SORTLEN", res.count("SORTLEN"), 2)
     res.floor("SK-SUB", res.count("SK-SUB"), 10)
